@@ -5,7 +5,9 @@
 pub uninterp spec fn ps_trusted(ps: ProveState) -> bool;
 pub open spec fn state_inv(s: PeerState) -> bool {
     &&& (s.s_last_state().is_some() ==> s.s_last_state().unwrap().header.td_ok())
-    &&& (s.s_prove_state().is_some() ==> ps_trusted(s.s_prove_state().unwrap()) && s.s_prove_state().unwrap().last_state.header.td_ok())
+    &&& (s.s_prove_state().is_some() ==> ps_trusted(s.s_prove_state().unwrap()) && s.s_prove_state().unwrap().last_state.header.td_ok()
+            // ASSUMPTION: a proved header's number is a real block number (< 2^64 - 1)
+            && s.s_prove_state().unwrap().last_state.header.s_header().s_number() < u64::MAX)
     &&& (s.s_request().is_some() ==> s.s_request().unwrap().last_state.header.td_ok())
 }
 pub struct Peers { pub x: u8 }
@@ -25,9 +27,11 @@ impl MBGuard {
     pub fn clear(&mut self) { unimplemented!() }
 }
 impl Peers {
+    // whether the peer is in the table: constant during one handler call (removal happens on disconnect only)
+    pub uninterp spec fn s_has(&self, index: PeerIndex) -> bool;
     #[verifier::external_body]
     pub fn get_state(&self, index: &PeerIndex) -> (r: Option<PeerState>)
-        ensures r.is_some() ==> state_inv(r.unwrap()) { unimplemented!() }
+        ensures r.is_some() == self.s_has(*index), r.is_some() ==> state_inv(r.unwrap()) { unimplemented!() }
     #[verifier::external_body]
     pub fn update_last_state(&self, index: PeerIndex, last_state: LastState) -> (r: Result<(), Status>)
         requires last_state.header.td_ok() { unimplemented!() }
